@@ -577,6 +577,24 @@ pub fn gen_acc(schemes: &[&str], rng: &mut Rng, thorough: bool, cases: &mut Vec<
             ));
             cases.push(c);
         }
+        // client lists of every arity 0..=6
+        for n in 0..=6usize {
+            let mut p = Vec::new();
+            for i in 0..n {
+                p.extend_from_slice(&rlp_bytes(format!("s{i}").as_bytes()));
+            }
+            let mut c = Case::new("acc", scheme, id, "client-arity");
+            id += 1;
+            c.keys = keys.clone();
+            c.lines.push(format!("init kind=build calls=raw:636c69656e74:{} signer=0", hx(&rlp_list(&p))));
+            c.lines.push(with_signer(
+                &format!("step op=insert_raw key=636c69656e74 raw={}", hx(&rlp_list(&p))),
+                0,
+                false,
+            ));
+            c.lines.push("step op=redecode".into());
+            cases.push(c);
+        }
         // arbitrary raw values under typed keys and client info
         for _ in 0..(if thorough { 400 } else { 60 }) {
             let mut c = Case::new("acc", scheme, id, "raw");
@@ -595,7 +613,16 @@ pub fn gen_acc(schemes: &[&str], rng: &mut Rng, thorough: bool, cases: &mut Vec<
                     b"id",
                     b"x",
                 ]);
-                let raw = match rng.below(6) {
+                let raw = match rng.below(8) {
+                    6 | 7 => {
+                        // lists of 0..=5 byte strings (client_info reports 2 and 3 only)
+                        let n = rng.below(6);
+                        let mut p = Vec::new();
+                        for _ in 0..n {
+                            p.extend_from_slice(&rlp_bytes(&ascii_word(rng)));
+                        }
+                        rlp_list(&p)
+                    }
                     0 => rlp_list(&[rlp_bytes(&ascii_word(rng)), rlp_bytes(&ascii_word(rng))].concat()),
                     1 => rlp_list(
                         &[
@@ -663,6 +690,22 @@ pub fn gen_eq(schemes: &[&str], rng: &mut Rng, thorough: bool, cases: &mut Vec<C
             c.lines.push(with_signer("step op=set_seq seq=7", 0, false));
             c.lines.push("step op=cmp slot=b".into()); // same seq, different content
             c.lines.push("step op=cmp slot=a".into());
+            // contents that are a proper prefix of one another at the same seq: a key that sorts
+            // last is added / removed, the sequence number is brought back level
+            c.lines.push("step op=load slot=b".into());
+            c.lines.push(with_signer("step op=insert key=7a7a7a7a vt=bytes val=01", 0, false));
+            c.lines.push(with_signer("step op=set_seq seq=7", 0, false));
+            c.lines.push("step op=cmp slot=b".into());
+            c.lines.push("step op=snap slot=d".into());
+            c.lines.push(with_signer("step op=insert key=7a7a7a7a7a vt=bytes val=02", 0, false));
+            c.lines.push(with_signer("step op=set_seq seq=7", 0, false));
+            c.lines.push("step op=cmp slot=d".into());
+            c.lines.push("step op=cmp slot=b".into());
+            // a key in the middle
+            c.lines.push("step op=load slot=b".into());
+            c.lines.push(with_signer("step op=insert key=6a vt=bytes val=03", 0, false));
+            c.lines.push(with_signer("step op=set_seq seq=7", 0, false));
+            c.lines.push("step op=cmp slot=b".into());
             // re-keying
             c.lines.push("step op=load slot=b".into());
             c.lines.push(with_signer("step op=set_seq seq=7", 1, false));
